@@ -49,9 +49,13 @@ type Plan struct {
 	BackendKeepAlive   bool
 	ExtraInjectors     []ExtraInjector
 	YieldInjector      bool // park every handler at an injector placed first
+	ParkInjector       bool // park every handler at an injector placed first until the drain phase
 	CancelAtStep       int  // >0: cancel the server context at that decision
 	Fences             bool // yield fences in readFrames / sendServeMsg are active
 	CancelBeforeServe  bool
+	SchedKind          string // "", "rr", "priority", "random": write scheduler installed through NewWriteScheduler
+	SchedCfg           *http2.PriorityWriteSchedulerConfig
+	SchedMonitor       bool
 	SecondCancelAtStep int
 	Invariant          func(w *World) `json:"-"` // evaluated at every quiescent point
 	NoTagWrap          bool
@@ -86,6 +90,7 @@ type RespPlan struct {
 	Chunks  []int // body is written in these piece sizes with Flush in between (nil: one write)
 	DelayMS int   // the handler sleeps (simulated time) before answering
 	Hold    bool  // the handler parks at a yield point until the controller releases it
+	NoRead  bool  // the handler answers without reading the request body
 	Park    bool  // the handler parks until the drain phase (not offered to the controller during Run)
 	Trailer [][2]string
 	NoCL    bool
@@ -150,6 +155,7 @@ type World struct {
 	Start         time.Time
 	Probes        map[string]int
 	Yields        []*yieldPoint
+	Sched         SchedStats
 	Parked        []*yieldPoint
 	draining      bool
 	callbackCount map[string]int
@@ -329,7 +335,10 @@ func NewWorld(t testingT, plan *Plan) *World {
 	fingerproxy.GetHeaderInjectors = func() []reverseproxy.HeaderInjector {
 		inj := []reverseproxy.HeaderInjector{}
 		if plan.YieldInjector {
-			inj = append(inj, &yieldInjector{w})
+			inj = append(inj, &yieldInjector{w, false})
+		}
+		if plan.ParkInjector {
+			inj = append(inj, &yieldInjector{w, true})
 		}
 		if n := plan.Faults.PanicAt["injector"]; n > 0 {
 			inj = append(inj, &panicInjector{w: w, at: n})
@@ -364,6 +373,9 @@ func NewWorld(t testingT, plan *Plan) *World {
 		})
 	}
 	w.installTLSFaults()
+	if plan.SchedKind != "" {
+		srv.HTTP2Server.NewWriteScheduler = w.newScheduler
+	}
 
 	// back-end
 	w.BackSrv = &http.Server{Handler: http.HandlerFunc(w.backendHandler), ErrorLog: mk("[backend] ")}
@@ -450,11 +462,18 @@ func (w *World) installTLSFaults() {
 
 // ------------------------------------------------------------- injectors
 
-type yieldInjector struct{ w *World }
+type yieldInjector struct {
+	w    *World
+	park bool
+}
 
 func (y *yieldInjector) GetHeaderName() string { return "X-Verif-Yield" }
 func (y *yieldInjector) GetHeaderValue(r *http.Request) (string, error) {
-	y.w.Yield("inj:" + r.Header.Get("X-Tag"))
+	if y.park {
+		y.w.Park("inj:" + r.Header.Get("X-Tag"))
+	} else {
+		y.w.Yield("inj:" + r.Header.Get("X-Tag"))
+	}
 	return "", nil
 }
 
@@ -490,7 +509,13 @@ func (x *extraInjector) GetHeaderValue(r *http.Request) (string, error) {
 // --------------------------------------------------------------- back-end
 
 func (w *World) backendHandler(rw http.ResponseWriter, r *http.Request) {
-	body, err := io.ReadAll(r.Body)
+	var body []byte
+	var err error
+	if pl := w.Plan.Backend.Resp[r.Header.Get("X-Tag")]; pl != nil && pl.NoRead {
+		// answer without touching the request body
+	} else {
+		body, err = io.ReadAll(r.Body)
+	}
 	rec := &BackendReq{
 		Tag: r.Header.Get("X-Tag"), Method: r.Method, RequestURI: r.RequestURI, Host: r.Host, Proto: r.Proto,
 		Header: r.Header.Clone(), Body: body, Trailer: r.Trailer.Clone(), RemoteAddr: r.RemoteAddr,
@@ -530,7 +555,7 @@ func (w *World) backendHandler(rw http.ResponseWriter, r *http.Request) {
 		}
 		h.Set("Trailer", strings.Join(names, ","))
 	}
-	if !rp.NoCL && len(rp.Trailer) == 0 && rp.Chunks == nil {
+	if !rp.NoCL && len(rp.Trailer) == 0 {
 		h.Set("Content-Length", fmt.Sprint(len(rp.Body)))
 	}
 	st := rp.Status
@@ -590,7 +615,7 @@ func (w *World) enabled() []action {
 	// client steps
 	for _, c := range w.Clients {
 		c := c
-		if c.AtGate() && w.startAllowed(c) {
+		if c.AtGate() && w.startAllowed(c) && w.quietAllowed(c) {
 			acts = append(acts, action{fmt.Sprintf("step %s", c.Name), func() { c.gate <- struct{}{} }})
 		}
 		if c.Plan.AbortKind != "" && !c.aborted && c.conn != nil && c.conn.out.delivered == c.Plan.AbortAt {
@@ -690,6 +715,21 @@ func (w *World) blockedByFault(p Pending) bool {
 		return true
 	}
 	return false
+}
+
+// quietAllowed: a step marked WhenQuiet waits until nothing is in flight on the
+// client's connection in either direction.
+func (w *World) quietAllowed(c *Client) bool {
+	c.W.mu.Lock()
+	i := c.nextStep
+	c.W.mu.Unlock()
+	if i >= len(c.Plan.Steps) || !c.Plan.Steps[i].WhenQuiet || c.conn == nil {
+		return true
+	}
+	w.Net.mu.Lock()
+	defer w.Net.mu.Unlock()
+	p := c.conn.pair
+	return len(p.A.out.inflight) == 0 && len(p.B.out.inflight) == 0
 }
 
 func (w *World) startAllowed(c *Client) bool {
